@@ -239,17 +239,25 @@ def adversarial_names_stream(res, logic, gen_tree, rng, quick, pid):
     truth = [norm(x) for x in lean_batch(['%s|%s|%s' % (logic, K.enc(), sexpr(t)) for K, t, _, _ in cases])]
     cmd = 'CTLM' if logic == 'CTL' else logic
     asimpl = [norm(x) for x in lean_batch(['%s|%s|%s' % (cmd, K2.enc(), sexpr(t2)) for _, _, K2, t2 in cases])]
+    # the recorded finding excuses a wrong answer only while it is open AND its witness still fails, only for an answer
+    # that is a set (never an exception), only when the library answers the isomorphic clean instance correctly (so the
+    # deviation is due to the name), and for CTL only when the as-implemented memo model reproduces it
+    succ, labs, wt, want = ADVERSARIAL_WITNESS[logic]
+    w = norm(impl_one((logic, succ, labs, wt, 'obj')))
+    live = (w != 'OK ' + ' '.join(map(str, want))) and any(k['id'].endswith('-names') for k in common.known_findings(pid))
+    clean = [norm(x) for x in impl_batch([(logic, K.succ, K.labs, t, 'obj') for K, t, _, _ in cases])]
     known_hits = new = infidel = 0
-    for (K, t, K2, t2), a, tr, m in zip(cases, impl, truth, asimpl):
+    for (K, t, K2, t2), a, tr, m, cl in zip(cases, impl, truth, asimpl, clean):
         if a != tr:
-            if logic != 'CTL' or a == m:
+            if live and a.startswith('OK') and cl == tr and (logic != 'CTL' or a == m):
                 known_hits += 1
             else:
                 new += 1
                 if new <= 2:
                     res.violation('%s.modelcheck(%s) = %s; the isomorphic instance with identifier atoms has answer %s and the '
-                                  'as-implemented memo model gives %s: a wrong answer that the recorded finding does not explain'
-                                  % (logic, tree_str(t2), a, tr, m),
+                                  'as-implemented model gives %s: a wrong answer that the recorded finding does not explain '
+                                  '(finding open and witness failing: %s; clean instance answered %s)'
+                                  % (logic, tree_str(t2), a, tr, m, live, cl),
                                   {'logic': logic, 'structure': K2.describe(), 'formula_sexpr': sexpr(t2), 'impl': a, 'truth': tr, 'memo_model': m})
         elif logic == 'CTL' and a != m:
             infidel += 1
@@ -258,9 +266,6 @@ def adversarial_names_stream(res, logic, gen_tree, rng, quick, pid):
                               '_checkStateFormula\'s memo table no longer checks' % (tree_str(t2), a, m),
                               {'logic': logic, 'structure': K2.describe(), 'formula_sexpr': sexpr(t2), 'impl': a, 'model': m,
                                'correspondence': 'PMC.CTL.checkM (PMC/Model/CTLMemo.lean) vs CTL._checkStateFormula'}, no_input=True)
-    succ, labs, wt, want = ADVERSARIAL_WITNESS[logic]
-    w = norm(impl_one((logic, succ, labs, wt, 'obj')))
-    live = (w != 'OK ' + ' '.join(map(str, want)))
     if live:
         for k in common.known_findings(pid):
             if k['id'].endswith('-names'):
